@@ -160,6 +160,27 @@ def discharge(F, s):
                             v = trace_value(fn, x)
                             if v and v[0] == "call" and re.search(r"::len$", v[1].get("fp", "")):
                                 return "len() + small constant cannot overflow usize"
+                    for x, y in ((a, b), (b, a)):
+                        if "c" in y and re.match(r"^(const )?\d{1,6}_usize$", y["c"].strip()) and "l" in x:
+                            d = _single_def(fn, x["l"])
+                            if d and d[2] == "use" and d[3]:
+                                src = d[3][0]
+                                d2 = _single_def(fn, src["l"]) if "l" in src and not src.get("p") else None
+                                if d2 and d2[2] == "cast" and d2[4]["r"].get("ck") == "IntToInt" and d2[3] and "l" in d2[3][0] \
+                                        and fn.locals[d2[3][0]["l"]] in ("u8", "u16", "u32"):
+                                    return "u32-or-narrower value widened to usize + small constant cannot overflow (64-bit usize)"
+                                # offset yielded by CharIndices (< len <= isize::MAX)
+                                hops = 0
+                                while "l" in src and not src.get("p") and hops < 4:
+                                    hops += 1
+                                    dd = _single_def(fn, src["l"])
+                                    if not (dd and dd[2] == "use" and dd[3]):
+                                        break
+                                    src = dd[3][0]
+                                flds = [p_[3] for p_ in src.get("p", []) if isinstance(p_, list) and p_[0] == "f"]
+                                d3 = _single_def(fn, src["l"]) if "l" in src else None
+                                if flds and flds[-1] == "0" and d3 and d3[2] == "call" and "CharIndices" in (d3[4].get("rn") or ""):
+                                    return "char_indices offset (< len <= isize::MAX) + small constant cannot overflow usize"
                     va, vb = trace_value(fn, a), trace_value(fn, b)
                     if (va and vb and va[0] == "call" and vb[0] == "call"
                             and re.search(r"::len$", va[1].get("fp", "")) and re.search(r"::len$", vb[1].get("fp", ""))):
